@@ -10,6 +10,7 @@ import coqterm as ct
 from fgutils.permutation import PermutationMapper, MappingMatrix
 
 ID = "C08"
+REPEAT_PROBE = True   # engine: repeat 1 call in 5 after editing its first result in place (purity / no shared state)
 PROPS = "Props/C08.v"
 MODEL_FILES = ["Model/Permute.v", "Model/MapMatrix.v", "Spec/PermuteSpec.v", "Spec/PermuteCheck.v"]
 IMPORTS = "From FGV Require Import Base.Sym Model.Permute Model.MapMatrix Spec.PermuteSpec Spec.PermuteCheck."
